@@ -265,8 +265,8 @@ TkCb(tk, e) ==
                            !.planx = IF cleared THEN <<>> ELSE PlanxAfter(pxs, planNow, e.acts, 1),
                            !.succ = IF cleared THEN {} ELSE FlagsAfter(@, "S", e.sid, e.acts, 1) \ exitClears,
                            !.fail = IF cleared THEN {} ELSE FlagsAfter(@, "F", e.sid, e.acts, 1) \ exitClears,
-                           !.msucc = FlagsAfterM(@, "S", e.sid, e.acts, 1) \ exitClears,
-                           !.mfail = FlagsAfterM(@, "F", e.sid, e.acts, 1) \ exitClears,
+                           !.msucc = IF cleared THEN {} ELSE FlagsAfterM(@, "S", e.sid, e.acts, 1) \ exitClears,       \* (the end of a plan consumes every report)
+                           !.mfail = IF cleared THEN {} ELSE FlagsAfterM(@, "F", e.sid, e.acts, 1) \ exitClears,
                            !.sawS = @ \cup Targets(e.acts, "S", e.sid),
                            !.sawF = @ \cup Targets(e.acts, "F", e.sid),
                            !.planExists = @ \/ HasAct(e.acts, "PC") \/ HasAct(e.acts, "PW"),
